@@ -13,7 +13,13 @@ def main():
         mp = os.path.join(d, 'meta.json')
         if not os.path.exists(mp):
             continue
-        meta = json.load(open(mp))
+        if only and name.split('-')[0] not in only and not any(name.startswith(o) for o in only):
+            try:                                    # another lane may be rewriting this file right now
+                meta = json.load(open(mp))
+            except ValueError:
+                continue
+        else:
+            meta = json.load(open(mp))
         pid = meta.get('checked_by') or meta['property']
         if only and meta['property'] not in only:
             continue
@@ -34,7 +40,8 @@ def main():
         caught = ('VIOLATION property=%s' % pid) in cp.stdout and cp.returncode == 1
         meta['current_check'] = {'check': pid, 'caught': caught, 'exit': cp.returncode, 'signatures': sorted(set(sigs))[:8],
                                  'wall_s': round(time.time() - t0, 1)}
-        json.dump(meta, open(mp, 'w'), indent=1)
+        json.dump(meta, open(mp + '.tmp', 'w'), indent=1)
+        os.replace(mp + '.tmp', mp)
         print('%s %s by %s  %s' % (name, 'CAUGHT' if caught else 'MISSED', pid, '; '.join(sorted(set(sigs))[:2])[:160]))
         if not caught and meta.get('confirmed_valid'):
             missed += 1
